@@ -3,11 +3,13 @@
 package consul
 
 import (
+	"context"
 	"errors"
 	"fmt"
 
 	"github.com/hashicorp/go-hclog"
 
+	"github.com/hashicorp/consul/agent/connect"
 	"github.com/hashicorp/consul/agent/consul/state"
 	"github.com/hashicorp/consul/agent/structs"
 	"github.com/hashicorp/consul/lib/routine"
@@ -20,6 +22,8 @@ type VerifCADelegate struct {
 	ApplyFn func(t structs.MessageType, req interface{}) (interface{}, error)
 	DC      string
 	Primary string
+	// ForwardFn answers RPCs to the primary datacenter (nil: there is none)
+	ForwardFn func(method, dc string, args interface{}, reply interface{}) error
 }
 
 func (d *VerifCADelegate) State() *state.Store { return d.StoreFn() }
@@ -44,6 +48,9 @@ func (d *VerifCADelegate) ApplyCALeafRequest() (uint64, error) {
 	return modIdx, nil
 }
 func (d *VerifCADelegate) forwardDC(method, dc string, args interface{}, reply interface{}) error {
+	if d.ForwardFn != nil {
+		return d.ForwardFn(method, dc, args, reply)
+	}
 	return errors.New("verif: no other datacenter")
 }
 func (d *VerifCADelegate) generateCASignRequest(csr string) *structs.CASignRequest {
@@ -67,4 +74,27 @@ func (c *CAManager) VerifProviderRoot() *structs.CARoot {
 	c.providerLock.RLock()
 	defer c.providerLock.RUnlock()
 	return c.providerRoot
+}
+
+// VerifSignIntermediate is what ConnectCA.SignIntermediate does in the primary after its ACL check.
+func (c *CAManager) VerifSignIntermediate(csrPEM string) (string, error) {
+	provider, _ := c.getCAProvider()
+	if provider == nil {
+		return "", fmt.Errorf("internal error: CA provider is nil")
+	}
+	csr, err := connect.ParseCSR(csrPEM)
+	if err != nil {
+		return "", err
+	}
+	return provider.SignIntermediate(csr)
+}
+
+// VerifRenewIntermediateNow forces an intermediate renewal (the periodic routine's body, without waiting for half the TTL).
+func (c *CAManager) VerifRenewIntermediateNow() error {
+	return c.renewIntermediateNow(context.Background())
+}
+
+// VerifSecondaryUpdateRoots is the body of the secondary's primary-roots watch.
+func (c *CAManager) VerifSecondaryUpdateRoots(roots structs.IndexedCARoots) error {
+	return c.secondaryUpdateRoots(roots)
 }
